@@ -5,12 +5,12 @@
 set -u
 export VERIF_EVIDENCE_DIR=$(mktemp -d /tmp/seed_evidence.XXXXXX)   # never overwrite the committed evidence with a run on a modified tree
 trap 'rm -rf "$VERIF_EVIDENCE_DIR"' EXIT
-id="$1"; n="$2"; src="$3"
+id="$1"; n="$2"; src="$3"; dn="${4:-$2}"   # dn: number under which the change is stored
 out=/verif/seeded/$id; mkdir -p "$out"
 cd /repo || exit 2
 git diff --quiet || { echo "/repo dirty"; exit 2; }
-res() { echo "$1" >> "$out/confirm$n.log"; }
-: > "$out/confirm$n.log"
+res() { echo "$1" >> "$out/confirm$dn.log"; }
+: > "$out/confirm$dn.log"
 git apply --check "$src/patch$n.diff" 2>/dev/null || { res "patch does not apply on current tree"; echo "$id/$n: NOAPPLY"; exit 3; }
 demo_clean=$(PYTHONPATH=/repo/src timeout 600 /venv/bin/python "$src/demo$n.py" >/dev/null 2>&1; echo $?)
 git apply "$src/patch$n.diff"
@@ -25,5 +25,5 @@ res "suite with change: $suite"
 res "demo on clean tree: exit $demo_clean ; demo with change: exit $demo_seeded"
 res "check.py $id --tier quick with change: exit $rc, VIOLATION lines: $viol"
 res "$first"
-cp "$src/patch$n.diff" "$out/patch$n.diff"; cp "$src/demo$n.py" "$out/demo$n.py"; cp "$src/notes$n.md" "$out/notes$n.md" 2>/dev/null
-echo "$id/$n: suite=[$suite] demo clean=$demo_clean seeded=$demo_seeded check rc=$rc viol=$viol"
+cp "$src/patch$n.diff" "$out/patch$dn.diff"; cp "$src/demo$n.py" "$out/demo$dn.py"; cp "$src/notes$n.md" "$out/notes$dn.md" 2>/dev/null
+echo "$id/$dn: suite=[$suite] demo clean=$demo_clean seeded=$demo_seeded check rc=$rc viol=$viol"
